@@ -2,10 +2,10 @@
 C06 — model of `pyphysim/simulations/results.py : Result` (core Lean only).
 
 `Res` is the attribute record of a `Result` object; `update`/`merge` mirror
-`Result.update` / `Result.merge` statement by statement, *including the
-partially mutated state a raising call leaves behind* (the first component
+`Result.update` / `Result.merge` statement by statement (the first component
 of the returned pair is the object after the call, the second the exception,
-if any).  Numbers are exact rationals; the correspondence check feeds the
+if any; since the repairs of this property a raising call leaves the object
+unchanged).  Numbers are exact rationals; the correspondence check feeds the
 real code integers / dyadic rationals so that binary64 arithmetic is exact.
 
 Representation choices (documented, tied by the correspondence):
@@ -72,32 +72,33 @@ def incr : List Nat → Nat → List Nat
   | x :: xs, i+1 => x :: incr xs i
 
 /-- `Result.update(value, total)`: the object afterwards and the exception raised, if any.
-    `num_updates` is incremented before anything can fail. -/
+    A call that raises leaves the object unchanged (`num_updates` is incremented last; the RATIO
+    quotient is computed before anything is stored).  numpy scalars / 0-d arrays are converted to
+    Python numbers on entry, so an observation is its exact value whatever its numpy type. -/
 def update (r : Res) (o : Obs) : Res × Option PyErr :=
-  let r1 := { r with n := r.n + 1 }
   match r.ty with
   | .sum =>
-      ({ r1 with value := r.value + o.v, rsum := r.rsum + o.v, rsq := r.rsq + o.v * o.v,
-                 vlist := if r.acc then r.vlist ++ [o.v] else r.vlist }, none)
+      ({ r with n := r.n + 1, value := r.value + o.v, rsum := r.rsum + o.v, rsq := r.rsq + o.v * o.v,
+                vlist := if r.acc then r.vlist ++ [o.v] else r.vlist }, none)
   | .ratio =>
       match o.t with
-      | none => (r1, some .ValueError)
+      | none => (r, some .ValueError)
       | some t =>
-          let r2 := { r1 with value := r.value + o.v, total := r.total + t }
-          if t = 0 then (r2, some .ZeroDivisionError)
+          if t = 0 then (r, some .ZeroDivisionError)
           else
-            ({ r2 with rsum := r.rsum + o.v / t, rsq := r.rsq + (o.v / t) * (o.v / t),
-                       vlist := if r.acc then r.vlist ++ [o.v] else r.vlist,
-                       tlist := if r.acc then r.tlist ++ [t] else r.tlist }, none)
+            ({ r with n := r.n + 1, value := r.value + o.v, total := r.total + t,
+                      rsum := r.rsum + o.v / t, rsq := r.rsq + (o.v / t) * (o.v / t),
+                      vlist := if r.acc then r.vlist ++ [o.v] else r.vlist,
+                      tlist := if r.acc then r.tlist ++ [t] else r.tlist }, none)
   | .misc =>
-      ({ r1 with value := o.v, vlist := if r.acc then r.vlist ++ [o.v] else r.vlist }, none)
+      ({ r with n := r.n + 1, value := o.v, vlist := if r.acc then r.vlist ++ [o.v] else r.vlist }, none)
   | .choice =>
-      if o.v.den ≠ 1 then (r1, some .AssertionError)
+      if o.v.den ≠ 1 then (r, some .AssertionError)
       else match pyIndex r.counts.length o.v.num with
-        | none => (r1, some .IndexError)
+        | none => (r, some .IndexError)
         | some i =>
-            ({ r1 with counts := incr r.counts i, total := r.total + 1,
-                       vlist := if r.acc then r.vlist ++ [o.v] else r.vlist }, none)
+            ({ r with n := r.n + 1, counts := incr r.counts i, total := r.total + 1,
+                      vlist := if r.acc then r.vlist ++ [o.v] else r.vlist }, none)
 
 /-- numpy `a += b` on 1-D int arrays (rhs broadcast when it has one element) -/
 def addCounts (a b : List Nat) : Option (List Nat) :=
@@ -106,11 +107,12 @@ def addCounts (a b : List Nat) : Option (List Nat) :=
     | [x] => some (a.map (· + x))
     | _ => none
 
-/-- the assertions at the top of `Result.merge` -/
+/-- the assertions of `Result._assert_can_merge` (checked by `merge` before anything changes) -/
 def mergeGuard (a b : Res) : Option PyErr :=
   if a.ty ≠ b.ty then some .AssertionError
   else if a.name ≠ b.name then some .AssertionError
   else if a.acc = true ∧ b.acc = false then some .AssertionError
+  else if a.ty = .choice ∧ a.counts.length ≠ b.counts.length then some .AssertionError
   else none
 
 /-- `self` after the list extension at the top of `merge` -/
